@@ -1,6 +1,6 @@
 (* Property C02 — a multi-variable query returns exactly the satisfying assignments.
    Only statements, `exact`, and Print Assumptions. *)
-From EQL Require Import Base Values Syntax Spec Generated Elab Elab_Facts EvalPure EvalPure_Facts Query_Facts Elab_Frag.
+From EQL Require Import Base Values Syntax Spec Generated Elab Elab_Facts EvalPure EvalPure_Facts Query_Facts Elab_Frag Infer_Facts.
 
 (* U = the variables of the query (any number), each with a duplicate-free domain; sc = any condition the user can write
    over them (mentioning any subset, self-joins, chained attributes, nested sub-queries as conditions, negation at any depth);
@@ -41,6 +41,18 @@ Proof.
   exists e. split; [exact V|]. split; [|exact R]. now rewrite <- (elab_sat h dom sc ic E e).
 Qed.
 Print Assumptions C02_sound.
+
+(* selected EXPRESSIONS (attribute chains, indexes, calls, constants next to variables, in any order): every row maps every
+   selected expression to the value it has under the assignment the row was produced from; that assignment gives every variable
+   the selection mentions a member of its domain *)
+Theorem C02_row_values : forall h dom U sel sc ic b e,
+  (forall x, In x U -> NoDup (dom x)) -> sbasic U sc = true -> elab sc = Some ic -> forallb (tclosed U) sel = true ->
+  In b (final h dom sel ic) -> agreesb U b e = true -> valid dom U e ->
+  row_of h dom sel b = map (fun t => tval h t e) sel.
+Proof.
+  intros h dom U sel sc ic b e ND S E C Hb A V. exact (fields_of_instance h dom U ND sel ic b e (elab_basic U sc ic E S) C Hb A V).
+Qed.
+Print Assumptions C02_row_values.
 
 (* the invariant behind them (DESIGN.md 3.5): the true rows of every node PARTITION the satisfying extensions of the
    incoming binding, the false rows (when requested) partition the others *)
